@@ -186,7 +186,7 @@ def special_sig(b):
     return B.sig_for(part, b)
 
 
-def run_special(ctx, ev):
+def special_items(ctx):
     B = _B()
     cases = []
     for S in special_sets():
@@ -194,11 +194,16 @@ def run_special(ctx, ev):
         for kind in "abcfg":     # not e: cdef itself refuses an ENUMERATOR called size_t (pycparser knows it as a type)
             cases.append(("abi", S, kind))
     cases.append(("api_iofile", _iofile_reference()))
-    ctx.count("special.cases_in_a_process_of_their_own", sum(1 for c in cases if c[0] == "api_iofile" or "_IO_FILE" in c[1]))
+    ctx.count("special.cases_in_a_process_of_their_own",
+              sum(1 for c in cases if c[0] == "api_iofile" or "_IO_FILE" in c[1]))
     ctx.sample({"part": "2s", "set": ["size_t", "A"], "cdef_b": B.text_for(("size_t", "A"), "b")})
     cases.sort(key=lambda c: 0 if c[0] == "api_iofile" or "_IO_FILE" in c[1] else 1)      # the slow ones first
-    items = [[blk] for blk in pool.chunks(cases, 3)]
-    for item, r in pool.pmap(special_item, items):
+    return list(pool.chunks(cases, 3))
+
+
+def collect_special(ctx, results, ev):
+    B = _B()
+    for item, r in results:
         if isinstance(r, pool.WorkerError):
             raise InfraError("worker failed: %s" % r.tb)
         if isinstance(r, pool.Crash):
@@ -240,10 +245,14 @@ def long_block(item):
     return tot, res
 
 
-def run_long(ctx, ev):
+def long_items(ctx):
     B = _B()
-    sets = list(B.enumerate_sets(B.LONG, 2))
-    B.collect(ctx, "abi_module_long_names", "2L", pool.pmap(long_block, [[blk] for blk in pool.chunks(sets, 2)]), ev)
+    return list(pool.chunks(list(B.enumerate_sets(B.LONG, 2)), 2))
+
+
+def collect_long(ctx, results, ev):
+    B = _B()
+    B.collect(ctx, "abi_module_long_names", "2L", results, ev)
     ctx.count("long_names.sets", ev[0])
     ctx.log("part 2L: %d sets of long names as %d ABI modules, %d lookups, %d of members" % (ev[0], ev[3], ev[1], ev[2]))
 
@@ -270,20 +279,24 @@ def chain_kmax(ctx):
     return 2 if ctx.quick else 3
 
 
-def chain_configs(kmax):
+def chain_core(ctx):
     B = _B()
+    return B.CORE6 if ctx.quick else B.CORE8
+
+
+def chain_configs(core, kmax):
     for k in range(0, kmax + 1):
-        for S in itertools.combinations(B.CORE8, k):
+        for S in itertools.combinations(core, k):
             for owners in itertools.product(ROLES, repeat=k):
                 yield tuple(zip(S, owners))
 
 
 def rule_chains_abi(ctx):
-    return ("every set of size <= %d of CORE8 x every assignment of its names to the four modules of the chain A -> (B1 "
+    return ("every set of size <= %d of %s x every assignment of its names to the four modules of the chain A -> (B1 "
             "-> C, B2) (4^|S| each), as out-of-line ABI modules of the kinds a, b, h; through A's ffi/lib the whole "
             "80-name universe is looked up, through those of B1, B2 and C the 12 names of CORE12 (a name is a member "
             "iff it is owned by the module or by one it includes); + the 16 assignments of the pair {A, AA} with "
-            "kind c (nested anonymous structs)" % chain_kmax(ctx))
+            "kind c (nested anonymous structs)" % (chain_kmax(ctx), "CORE6" if ctx.quick else "CORE8"))
 
 
 def rule_chains_api(ctx):
@@ -425,9 +438,8 @@ def _collect_chain(ctx, it, ev):
             ctx.violation(chain_sig(b), dict(b, part="2i" if b["mode"] == "abi" else "3i", family="chain"))
 
 
-def run_chains_abi(ctx, ev, nontrivial):
-    B = _B()
-    configs = list(chain_configs(chain_kmax(ctx)))
+def chain_abi_items(ctx, nontrivial):
+    configs = list(chain_configs(chain_core(ctx), chain_kmax(ctx)))
     for config in configs:
         ctx.count("chain_abi.configs_size_%d" % len(config))
         roles = sorted(set(o for _, o in config))
@@ -440,12 +452,16 @@ def run_chains_abi(ctx, ev, nontrivial):
                 break
         if len(config) == 2:
             ctx.sample({"part": "2i", "config": [list(c) for c in config]})
-    items = [[("abi", CHAIN_KINDS, blk)] for blk in pool.chunks(configs, 12)]
+    items = [("abi", CHAIN_KINDS, blk) for blk in pool.chunks(configs, 12)]
     # nested anonymous structs along the chain (module kind c): a known collision of the per-module numbering '$1'
     nested = [(("A", o1), ("AA", o2)) for o1 in ROLES for o2 in ROLES]
     ctx.count("chain_abi.configs_kind_c_nested_anonymous", len(nested))
-    items += [[("abi", "c", blk)] for blk in pool.chunks(nested, 4)]
-    _collect_chain(ctx, pool.pmap(chain_block, items), ev)
+    items += [("abi", "c", blk) for blk in pool.chunks(nested, 4)]
+    return items
+
+
+def collect_chains_abi(ctx, results, ev):
+    _collect_chain(ctx, results, ev)
     ctx.count("chain_abi.configs", ev[0])
     ctx.log("part 2i: %d include-chain configurations as %d ABI modules, %d lookups, %d of members" % (
         ev[0], ev[3], ev[1], ev[2]))
